@@ -24,6 +24,7 @@ ASSUMPTIONS = [
     '`::name::` is compared with picotool\'s single label token by folding the reference\'s three tokens; a `::` that is not part of such a tight label is outside the dialect',
     'lone-CR line ends and \\z are not generated',
     'number values are compared as floats with relative tolerance 1e-12',
+    'the absolute token count `stats` reports is not judged (no property states PICO-8\'s counting rule); only that a string literal / name counts the same whatever it spells',
 ]
 EXHAUSTIVE = {'quick': False, 'thorough': False}
 KNOWN_KEYS = {'exp-plus-sign', 'keyword-glyph-boundary', 'long-comment-level', 'number-value-upper-or-empty-int',
@@ -50,6 +51,7 @@ def plan(tier, seed):
     specs.append({'kind': 'numbers'})
     specs.append({'kind': 'strings'})
     specs.append({'kind': 'idents'})
+    specs.append({'kind': 'bytes_through_files'})
     n = 12 if tier == 'quick' else 48
     for i in range(n):
         specs.append({'kind': 'programs', 'count': 120 if tier == 'quick' else 700, 'files': i < 2})
@@ -144,7 +146,7 @@ def check_source(ctx, src, tag, files=False):
     if not lexcmp.tokens_equal(pt, pc):
         ctx.violation('tokenisation differs between one chunk and per-line chunks', case)
         return
-    if files and b'\r' not in src:
+    if files and b'\r' not in src and b'\x00' not in src:
         from pico8.game import file as p8file
         import tempfile, os
         regions, _ = carts.random_regions(ctx.rng, 'zero')
@@ -272,10 +274,46 @@ def run_shard(spec, ctx):
     elif kind == 'strings':
         for s in gen_strings():
             check_source(ctx, s, 'string')
+        # the kind of a token as `stats` uses it: a string literal is one token of kind string whatever it spells, so the
+        # reported token count cannot depend on the literal's content (nor a name's spelling)
+        from pico8.lua import lua as _lua
+
+        def count(src):
+            return _lua.Lua.from_lines([src], version=8).get_token_count()
+        base = {q: count(b'x=' + q) for q in (b'"q"', b"'q'", b'[[q]]', b'[=[q]=]')}
+        for sp in (b'.', b':', b')', b']', b'}', b'local', b'end', b'..', b'e', b'1e5', b'(', b'=', b'--', b'', b'if', b'\n'.replace(b'\n', b'n')):
+            for q, form in ((b'"q"', b'"%s"'), (b"'q'", b"'%s'"), (b'[[q]]', b'[[%s]]'), (b'[=[q]=]', b'[=[%s]=]')):
+                if sp == b']' and form.startswith(b'[['):
+                    continue
+                src = b'x=' + form.replace(b'%s', sp)
+                ctx.case(src + b'#count')
+                ctx.monitor('stats_kind_checks')
+                try:
+                    c = count(src)
+                except Exception as e:
+                    ctx.violation('stats token count raised %r on %r' % (e, src), {'src': src, 'tag': 'count'})
+                    continue
+                if c != base[q]:
+                    ctx.violation('stats counts %r as %d tokens but %r as %d: the string literal is not treated as a string token' % (
+                        src, c, b'x=' + q, base[q]), {'src': src, 'tag': 'count'})
+        for nm in (b'e', b'end_', b'local_', b'x1e5', b'_'):
+            ctx.monitor('stats_kind_checks')
+            if count(nm + b'=1') != count(b'zz=1'):
+                ctx.violation('stats counts the name %r differently from other names' % nm, {'src': nm + b'=1', 'tag': 'count'})
         ctx.sample({'string_source': b's="\\0001"'})
     elif kind == 'idents':
         for s in gen_idents():
             check_source(ctx, s, 'ident')
+    elif kind == 'bytes_through_files':
+        # each byte value inside a line comment, a quoted string and a long string, delivered as a .p8 and a .p8.png file
+        for b in range(1, 256):
+            if b in (10, 13):
+                continue
+            c = bytes([b])
+            q = c if b not in (34, 92) else b'\\' + c
+            src = b'x=1 --a' + c + b'b c=3\ny="' + q + b'z" w=[[' + (c if b != 93 else b'') + b'v]]\n//' + c + b' k=2\nz=4\n'
+            check_source(ctx, src, 'bytes-file', files=True)
+        ctx.sample({'bytes_file_source': b'x=1 --a\x0bb c=3\n'})
     elif kind == 'programs':
         for i in range(spec['count']):
             p = progen.gen_program(rng, {'depth': rng.choice((1, 2, 2, 3)), 'max_stmts': 4, 'exotic_numbers': True,
@@ -296,6 +334,9 @@ def run_shard(spec, ctx):
 
 
 def replay(case, ctx):
+    if case.get('tag') == 'count':
+        run_shard({'kind': 'strings'}, ctx)
+        return
     check_source(ctx, case['src'], case.get('tag', 'replay'))
 
 
